@@ -13,15 +13,125 @@ package main
 import (
 	"fmt"
 	"go/ast"
+	"go/parser"
+	"go/printer"
 	"go/token"
+	"os"
+	"path/filepath"
 	"regexp"
+	"strconv"
 	"strings"
 
 	"ssvharness/internal/gen"
 )
 
+// pkg: the non-test files of one directory, parsed only. Everything gen_c13 extracts is syntactic (statement shapes,
+// literals, two constant expressions), so the packages are NOT type-checked: type-checking `service` from source pulls in
+// the whole dependency graph (minutes of CPU on a loaded machine).
+type pkg struct {
+	dir   string
+	fset  *token.FileSet
+	files []*ast.File
+}
+
+func loadDir(repo, dir string) (*pkg, error) {
+	p := &pkg{dir: dir, fset: token.NewFileSet()}
+	ents, err := os.ReadDir(filepath.Join(repo, dir))
+	if err != nil {
+		return nil, err
+	}
+	for _, e := range ents {
+		n := e.Name()
+		if !strings.HasSuffix(n, ".go") || strings.HasSuffix(n, "_test.go") {
+			continue
+		}
+		f, err := parser.ParseFile(p.fset, filepath.Join(repo, dir, n), nil, parser.ParseComments|parser.SkipObjectResolution)
+		if err != nil {
+			return nil, err
+		}
+		p.files = append(p.files, f)
+	}
+	return p, nil
+}
+
+// Src prints a node as one line of canonical source text.
+func (p *pkg) Src(n ast.Node) string {
+	var sb strings.Builder
+	printer.Fprint(&sb, p.fset, n)
+	return strings.Join(strings.Fields(sb.String()), " ")
+}
+
+// Func finds the unique declaration of recv.name ("" = plain function).
+func (p *pkg) Func(recv, name string) (*ast.FuncDecl, error) {
+	var found []*ast.FuncDecl
+	for _, f := range p.files {
+		for _, d := range f.Decls {
+			fd, ok := d.(*ast.FuncDecl)
+			if !ok || fd.Name.Name != name {
+				continue
+			}
+			if recv == "" && fd.Recv == nil {
+				found = append(found, fd)
+			}
+			if recv != "" && fd.Recv != nil && len(fd.Recv.List) == 1 && p.Src(fd.Recv.List[0].Type) == recv {
+				found = append(found, fd)
+			}
+		}
+	}
+	if len(found) != 1 {
+		return nil, fmt.Errorf("%s: %d declarations of %s.%s", p.dir, len(found), recv, name)
+	}
+	return found[0], nil
+}
+
+// constNat evaluates a package-level constant whose value is an integer literal or `<int> * time.<Unit>` (nanoseconds).
+func (p *pkg) constNat(name string) (string, error) {
+	units := map[string]uint64{"Nanosecond": 1, "Microsecond": 1e3, "Millisecond": 1e6, "Second": 1e9, "Minute": 60e9, "Hour": 3600e9}
+	for _, f := range p.files {
+		for _, d := range f.Decls {
+			gd, ok := d.(*ast.GenDecl)
+			if !ok || gd.Tok != token.CONST {
+				continue
+			}
+			for _, sp := range gd.Specs {
+				vs := sp.(*ast.ValueSpec)
+				for i, id := range vs.Names {
+					if id.Name != name {
+						continue
+					}
+					if vs.Type != nil || i >= len(vs.Values) {
+						return "", fmt.Errorf("%s.%s: unrecognised constant declaration %s", p.dir, name, p.Src(vs))
+					}
+					switch v := vs.Values[i].(type) {
+					case *ast.BasicLit:
+						if v.Kind == token.INT {
+							n, err := strconv.ParseUint(strings.ReplaceAll(v.Value, "_", ""), 0, 64)
+							if err == nil {
+								return strconv.FormatUint(n, 10), nil
+							}
+						}
+					case *ast.BinaryExpr:
+						lit, ok1 := v.X.(*ast.BasicLit)
+						sel, ok2 := v.Y.(*ast.SelectorExpr)
+						if v.Op == token.MUL && ok1 && ok2 && lit.Kind == token.INT && p.Src(sel.X) == "time" {
+							if u, ok := units[sel.Sel.Name]; ok {
+								n, err := strconv.ParseUint(strings.ReplaceAll(lit.Value, "_", ""), 0, 32)
+								if err == nil {
+									return strconv.FormatUint(n*u, 10), nil
+								}
+							}
+						}
+					}
+					return "", fmt.Errorf("%s.%s: unrecognised constant expression %s", p.dir, name, p.Src(vs.Values[i]))
+				}
+			}
+		}
+	}
+	return "", fmt.Errorf("%s.%s: no such constant", p.dir, name)
+}
+
 type ext struct {
-	p *gen.Pkg
+	p *pkg
 }
 
 func (e ext) src(n ast.Node) string { return e.p.Src(n) }
@@ -293,7 +403,7 @@ func guardName(eb errBranch) string {
 	}
 }
 
-func handleConn(p *gen.Pkg, l *gen.Lean) error {
+func handleConn(p *pkg, l *gen.Lean) error {
 	e := ext{p}
 	fd, err := p.Func("*TCPRelay", "handleConn")
 	if err != nil {
@@ -509,7 +619,7 @@ func onlyPure(n ast.Node) bool {
 	return ok
 }
 
-func listenerFlag(p *gen.Pkg, l *gen.Lean) error {
+func listenerFlag(p *pkg, l *gen.Lean) error {
 	e := ext{p}
 	fd, err := p.Func("*TCPListenerConfig", "Configure")
 	if err != nil {
@@ -562,7 +672,7 @@ func listenerFlag(p *gen.Pkg, l *gen.Lean) error {
 	return nil
 }
 
-func bidi(p *gen.Pkg, l *gen.Lean) error {
+func bidi(p *pkg, l *gen.Lean) error {
 	e := ext{p}
 	fd, err := p.Func("", "BidirectionalCopy")
 	if err != nil {
@@ -649,7 +759,7 @@ deriving DecidableEq, Repr
 }
 
 // nativeFlag extracts the NativeInitialPayload field of the info literal returned by recv.method.
-func nativeFlag(p *gen.Pkg, recv, method string) (string, error) {
+func nativeFlag(p *pkg, recv, method string) (string, error) {
 	e := ext{p}
 	fd, err := p.Func(recv, method)
 	if err != nil {
@@ -665,7 +775,7 @@ func nativeFlag(p *gen.Pkg, recv, method string) (string, error) {
 		return true
 	})
 	if n != 1 {
-		return "", fmt.Errorf("%s.%s.%s: expected exactly one NativeInitialPayload field", p.Dir, recv, method)
+		return "", fmt.Errorf("%s.%s.%s: expected exactly one NativeInitialPayload field", p.dir, recv, method)
 	}
 	switch val {
 	case "true", "false":
@@ -673,7 +783,7 @@ func nativeFlag(p *gen.Pkg, recv, method string) (string, error) {
 	case "c.dialer.TFO()":
 		return ".tfo", nil
 	}
-	return "", fmt.Errorf("%s.%s.%s: unrecognised NativeInitialPayload value %q", p.Dir, recv, method, val)
+	return "", fmt.Errorf("%s.%s.%s: unrecognised NativeInitialPayload value %q", p.dir, recv, method, val)
 }
 
 func natives(c *gen.Ctx, l *gen.Lean) error {
@@ -704,7 +814,7 @@ deriving DecidableEq, Repr
 	emit := func(items []item, def, doc string) error {
 		var xs []string
 		for _, it := range items {
-			p, err := c.Load(it.dir)
+			p, err := loadDir(c.Repo, it.dir)
 			if err != nil {
 				return err
 			}
@@ -725,12 +835,16 @@ deriving DecidableEq, Repr
 
 func main() {
 	gen.Main("C13", func(c *gen.Ctx, l *gen.Lean) error {
-		p, err := c.Load("service")
+		p, err := loadDir(c.Repo, "service")
 		if err != nil {
 			return err
 		}
-		if err := l.Consts(p, "defaultInitialPayloadWaitBufferSize", "defaultInitialPayloadWaitTimeout"); err != nil {
-			return err
+		for _, name := range []string{"defaultInitialPayloadWaitBufferSize", "defaultInitialPayloadWaitTimeout"} {
+			v, err := p.constNat(name)
+			if err != nil {
+				return err
+			}
+			l.NatDef(name, v, "service."+name)
 		}
 		if err := handleConn(p, l); err != nil {
 			return err
@@ -738,7 +852,7 @@ func main() {
 		if err := listenerFlag(p, l); err != nil {
 			return err
 		}
-		np, err := c.Load("netio")
+		np, err := loadDir(c.Repo, "netio")
 		if err != nil {
 			return err
 		}
